@@ -281,6 +281,17 @@ BEGIN
     WHERE node IN (SELECT sink FROM dependency WHERE source = NEW.i);
 END;
 
+-- A detached dynamic input counts as unavailable when a deferred step is parked
+-- (see Step.has_unavailable_dynamic_input), so reattaching it must wake up that step.
+-- No file state changes when a node is reattached by a full recycle,
+-- so Workflow.mark_step_pending(), which clears the flag otherwise, is never reached.
+CREATE TRIGGER IF NOT EXISTS step_node_clear_deferred_reattached AFTER UPDATE OF detached ON node
+WHEN OLD.detached AND NOT NEW.detached
+BEGIN
+    UPDATE step SET deferred = FALSE
+    WHERE deferred AND node IN (SELECT sink FROM dependency WHERE source = NEW.i);
+END;
+
 -- Keep _check_after in sync with duration changes, so the scheduler recomputes
 -- _implied_need/_tail_time for this step (and, via propagation, its sources).
 CREATE TRIGGER IF NOT EXISTS step_flag_check_after_duration AFTER UPDATE OF duration ON step
